@@ -82,6 +82,8 @@ class C20(Prop):
             if g % 4 == 3:
                 base["out_slash"] = True
             out.append(dict(base, route="kw", kw_str=g % 2 == 0))
+            if v == 1 and "V" not in S:
+                out.append(dict(base, route="kw", kw_str=g % 2 == 1, kw_nover=True))
             out.append(dict(base, route="config", announce_key=("announce", "tracker")[g % 2],
                             config_where=("path", "cwd", "home", "homeconfig")[(g // 2) % 4],
                             config_layout=("plain", "blank", "keyline")[g % 3]))
@@ -172,7 +174,7 @@ class C20(Prop):
         if case["route"] == "cli" and case["shape"] and case["shape"][0] == "PATH":
             return None
         return (case["group"], case["route"], tuple(case.get("shape", [])), case.get("announce_key"), case.get("argform"),
-                case.get("explicit_false"), case.get("config_where"), case.get("spelling"), case.get("kw_str"),
+                case.get("explicit_false"), case.get("config_where"), case.get("spelling"), case.get("kw_str"), case.get("kw_nover"),
                 case.get("config_layout"))
 
     def signature(self, case, rec, clause):
